@@ -107,8 +107,13 @@ func parseSingleConstraint(c string) ([]*constraint, error) {
 		return parseTildeRange(c[1:])
 	}
 
-	// Handle x-range (1.x, 1.2.x): the wildcard is a whole dot-separated component
-	if slices.ContainsFunc(strings.Split(c, "."), func(part string) bool { return part == "x" || part == "X" }) {
+	// Handle x-range (1.x, 1.2.x): the wildcard is a whole major, minor or patch component;
+	// an x further on (1.0.0-alpha.x) is an ordinary pre-release or build identifier
+	parts := strings.Split(c, ".")
+	if len(parts) > 3 {
+		parts = parts[:3]
+	}
+	if slices.ContainsFunc(parts, func(part string) bool { return part == "x" || part == "X" }) {
 		return parseXRange(c)
 	}
 
